@@ -1,4 +1,5 @@
 import Dbg.Lemmas.Recompress
+import Dbg.Lemmas.Beam
 /-! `is_compressed`: on a ported graph over a closed table in which no good link joins the end ports of two different
     nodes, the crate's own maximality check finds nothing to merge. -/
 namespace Compress
@@ -202,5 +203,19 @@ theorem PGraph.isCompressed_none {T : Table D} {K : Nat} {st : Bool} {join0 : D 
     exfalso
     obtain ⟨j, o, hj, hi, hne, hl⟩ := pg.isCompressedAt_link wf hes2 hcl hx8 i d r h
     exact hne (hsealed i j d o.flip hi hj hl)
+
+/-- a ported graph over a closed table is resolving: a side that records an extension has an edge -/
+theorem PGraph.resolving {T : Table D} {K : Nat} {st : Bool} {join0 : D → D → Bool} {nodes : List (Node D)}
+    {port : Nat → Dir → Nat × Dir} {members : Nat → List Nat} {lk : Walk.Link}
+    (pg : PGraph T K st join0 nodes port members lk) (wf : WF T K st) (hes2 : ExtSym2 T st) (hcl : Closed T st)
+    (hx8 : ∀ (i : Nat) (n : Node D), nodes[i]? = some n → n.exts.val < 256) :
+    Graph.Resolving (⟨K, nodes, st⟩ : G D) := by
+  intro i n d hi hpos
+  have hi' : nodes[i]? = some n := hi
+  obtain ⟨es, he⟩ : ∃ es, findEdges (⟨K, nodes, st⟩ : G D) i d = some es := by
+    unfold findEdges; rw [hi]; exact ⟨_, rfl⟩
+  obtain ⟨hl, _⟩ := pg.findEdges_spec wf hes2 hcl hx8 i n hi' d es he
+  refine ⟨es, he, ?_⟩
+  intro e; rw [e] at hl; simp at hl; omega
 
 end Compress
